@@ -82,6 +82,12 @@ func c03Alphabet(tier string) []seqSym {
 		{Name: "EVAL EXPIRE", Args: []string{"EVAL", "return tile38.call('EXPIRE','k1','a',100)", "0"}, Model: [][]string{{"EXPIRE", "k1", "a", "100"}}},
 		{Name: "EVALNA DROP+RENAME", Args: []string{"EVALNA", "tile38.call('DROP','k2'); return tile38.pcall('RENAME','k1','k2')", "0"}, Model: [][]string{{"DROP", "k2"}, {"RENAME", "k1", "k2"}}},
 	}
+	// writes wrapped in TIMEOUT
+	a = append(a,
+		seqSym{Name: "TIMEOUT 10 SET k1 a", Args: []string{"TIMEOUT", "10", "SET", "k1", "a", "FIELD", "f", "3", "POINT", "4", "4"}, Model: [][]string{{"SET", "k1", "a", "FIELD", "f", "3", "POINT", "4", "4"}}},
+		seqSym{Name: "TIMEOUT 10 DEL k1 a", Args: []string{"TIMEOUT", "10", "DEL", "k1", "a"}, Model: [][]string{{"DEL", "k1", "a"}}},
+		seqSym{Name: "TIMEOUT 10 EVAL", Args: []string{"TIMEOUT", "10", "EVAL", c03ScriptMix, "0"}, Model: [][]string{{"FSET", "k1", "a", "f", "9"}, {"DEL", "k1", "b"}}},
+	)
 	// a collection larger than one scan batch of the log rewrite, and the rewrite itself
 	fill := seqSym{Name: "@FILL k1 f00..f39", Args: []string{"@FILL", "k1", "40"}}
 	for i := 0; i < 40; i++ {
